@@ -225,8 +225,10 @@ def check_table(res, r, key):
         want_gr = sum(float(g._pressure_drop['gravity']) for g in a.region)
         scale = abs(float(a.pressure_drop)) + 1e-9
 
-        def near(got, want):
-            return abs(got - want) <= 6e-5 * scale
+        def near(got, want, n=1):
+            # five significant digits per printed entry: half a unit of the
+            # last digit for each of the n entries that enter the comparison
+            return abs(got - want) <= 6e-5 * n * scale
         ok = near(num(tot), float(a.pressure_drop))
         if a.has_rodded:
             ok = ok and near(num(fr), want_fr) and near(num(sg), want_sg) \
@@ -234,11 +236,12 @@ def check_table(res, r, key):
                     want_sg == 0.0) and near(num(fr) + num(sg) + num(gr),
                                              num(tot) if r._options[
                                                  'include_gravity'] else
-                                             num(tot) - want_gr + num(gr))
+                                             num(tot) - want_gr + num(gr),
+                                             n=4)
         ok = ok and len(regs) == len(a.region) and all(
             near(num(v), float(g.pressure_drop))
             for v, g in zip(regs, a.region)) and near(
-                sum(num(v) for v in regs), num(tot))
+                sum(num(v) for v in regs), num(tot), n=len(regs) + 1)
         res.check('DP6_table_row', bool(ok),
                   'pressure-drop table row of assembly %d (%s) disagrees '
                   'with its own values or does not add up: %r; total %.6e, '
